@@ -105,3 +105,9 @@ func init() {
 		return nil, stStay
 	})
 }
+
+func init() {
+	// os/signal: no signal is ever delivered in the model; Notify registers nothing.
+	regV("os/signal.Notify", func(m *Machine, g *Goroutine, a []Value) Value { return nil })
+	regV("os/signal.Stop", func(m *Machine, g *Goroutine, a []Value) Value { return nil })
+}
